@@ -225,10 +225,11 @@ type c04Scenario struct {
 	ConsOps   []int // c04Deq / c04Empty
 	Policy    verifrt.SerialPolicy
 	Seed      int64
+	Shared    bool // all producers send under one sender identity (matters for the fair mailbox)
 }
 
 func (s c04Scenario) String() string {
-	return fmt.Sprintf("kind=%s cap=%d prio=%s producers=%d per=%d cons=%v policy=%d seed=%d", s.Kind, s.Capacity, s.PrioFn, s.Producers, s.PerProd, s.ConsOps, s.Policy, s.Seed)
+	return fmt.Sprintf("kind=%s cap=%d prio=%s producers=%d per=%d cons=%v policy=%d seed=%d shared=%v", s.Kind, s.Capacity, s.PrioFn, s.Producers, s.PerProd, s.ConsOps, s.Policy, s.Seed, s.Shared)
 }
 
 // c04Run executes one scenario under the serial scheduler and returns the history.
@@ -262,12 +263,16 @@ func c04Run(s c04Scenario, box int) (ops []porcupine.Operation, trace []byte, mi
 		var mine []*c04Msg
 		for k := 0; k < s.PerProd; k++ {
 			id++
-			mine = append(mine, &c04Msg{ID: id, Sender: p, Prio: (id*7 + p) % 4, Box: box})
+			snd := p
+			if s.Shared {
+				snd = 0
+			}
+			mine = append(mine, &c04Msg{ID: id, Sender: snd, Prio: (id*7 + p) % 4, Box: box})
 		}
 		p := p
 		fns = append(fns, func() {
 			for _, m := range mine {
-				rc := &ReceiveContext{message: m, sender: c04Senders[p]}
+				rc := &ReceiveContext{message: m, sender: c04Senders[m.Sender]}
 				in := c04In{Op: c04Enq, ID: m.ID, Sender: m.Sender, Prio: m.Prio}
 				call := tick()
 				err := mb.Enqueue(rc)
@@ -387,6 +392,7 @@ func c04GenScenario(rng *rand.Rand, kind string) c04Scenario {
 		}
 	}
 	s.Policy = []verifrt.SerialPolicy{verifrt.SerialRandom, verifrt.SerialPCT, verifrt.SerialSticky}[rng.Intn(3)]
+	s.Shared = kind == "fair" && rng.Intn(2) == 0
 	return s
 }
 
